@@ -132,14 +132,19 @@ func (s Stmt) all() []Action {
 }
 
 // InnerRegexps: regexps for the right-hand side of =~ / !~.  Some match the
-// empty string and some do not; D marks those with one group, written
-// (?P<dI>...) in the program, that the body may read.
+// empty string and some do not.  D and S mark those with one group, written
+// (?P<dI>...) in the program, that the body may read: D when the compiler
+// types the group Int (digits only: every read goes through s2i, so the body
+// reads it as `int($dI)`), S when it types it String (`strptime($dI, L)`).
 var InnerRegexps = []struct {
 	Re string // with %s where the group name goes
 	D  bool
+	S  bool
 }{
-	{"^(guest)?$", false}, {"^$", false}, {"^a*$", false}, {"x", false}, {"^\\s*$", false}, {"^-?$", false},
-	{"^(%s\\d*)$", true}, {"^(%s\\d+)$", true}, {"^(%s[a-z]*)$", true}, {"(%s\\d\\d\\d\\d)?", true},
+	{"^(guest)?$", false, false}, {"^$", false, false}, {"^a*$", false, false}, {"x", false, false},
+	{"^\\s*$", false, false}, {"^-?$", false, false},
+	{"^(%s\\d*)$", true, false}, {"^(%s\\d+)$", true, false}, {"^(%s[a-z]*)$", false, true}, {"(%s\\d\\d\\d\\d)?", true, false},
+	{"^(%s[0-9:]*)$", false, true}, {"^(%s[0-9:]+)$", false, true},
 }
 
 // Inner is the inner regexp of an "sm" statement: named for the program, plain for the harness.
@@ -1298,13 +1303,11 @@ func genSM(r *vlib.Rand, p *Prog) {
 			s.Pre = append(s.Pre, Action{K: "settc", N: vlib.Pick(r, settConsts)})
 		}
 		s.Acts = append(s.Acts, Action{K: "inc", M: vlib.Pick(r, counters)})
-		if in.D && !s.Neg {
-			switch x := r.Intn(10); {
-			case x < 4:
-				s.Acts = append(s.Acts, Action{K: "conv", M: "n0"})
-			case x < 7:
-				s.Acts = append(s.Acts, Action{K: "strp", Layout: "2006"}, Action{K: "gts", M: vlib.Pick(r, gauges)})
-			}
+		if in.D && !s.Neg && r.Chance(50) {
+			s.Acts = append(s.Acts, Action{K: "conv", M: "n0"})
+		}
+		if in.S && !s.Neg && r.Chance(60) {
+			s.Acts = append(s.Acts, Action{K: "strp", Layout: "2006"}, Action{K: "gts", M: vlib.Pick(r, gauges)})
 		}
 		if r.Chance(30) {
 			s.Acts = append(s.Acts, Action{K: "gts", M: vlib.Pick(r, gauges)})
